@@ -26,7 +26,8 @@ type OpC10 struct {
 }
 
 type CaseC10 struct {
-	Ops []OpC10 `json:"ops"`
+	Ops       []OpC10 `json:"ops"`
+	MaxPerPTS int     `json:"max_per_pts,omitempty"` // descriptors allowed on one signal time (default 5)
 }
 
 var c10Alphabet = []byte{0x10, 0x11, 0x12, 0x13, 0x14, 0x17, 0x19, 0x20, 0x21, 0x22, 0x23, 0x30, 0x31, 0x32, 0x34, 0x35, 0x36, 0x37, 0x40, 0x41, 0x44, 0x45, 0x50, 0x51, 0x00, 0x15,
@@ -110,6 +111,17 @@ func checkC10(c CaseC10, x *hx.Ctx) (fail *hx.Failure) {
 	nextIndex := 0
 	var hist []string
 	var sawBreakaway, pendingBreakaway, interesting bool
+	maxPer := 5
+	if c.MaxPerPTS > 0 {
+		maxPer = c.MaxPerPTS
+	}
+	// closed lists handed to the caller must stay what they were
+	type retainedList struct {
+		got  []scte35.SegmentationDescriptor
+		want []scte35.SegmentationDescriptor
+		at   int
+	}
+	var retained []retainedList
 	var sharedSig scte35.SCTE35 // signal object that several same-PTS descriptors are attached to
 	var sharedList []scte35.SegmentationDescriptor
 	var sharedPTS uint64
@@ -177,14 +189,14 @@ func checkC10(c CaseC10, x *hx.Ctx) (fail *hx.Failure) {
 			} else {
 				hasPTS := o.Kind == "process"
 				if hasPTS {
-					if !(o.SamePTS && perPTS < 5) {
+					if !(o.SamePTS && perPTS < maxPer) {
 						pts += 90000
 						perPTS = 0
 					}
 					perPTS++
 				}
 				var nd *c10Desc
-				if hasPTS && !o.Decoded && o.SamePTS && sharedSig != nil && sharedPTS == pts && len(sharedList) < 4 {
+				if hasPTS && !o.Decoded && o.SamePTS && sharedSig != nil && sharedPTS == pts && len(sharedList) < 4 && maxPer <= 5 {
 					// attach to the SAME signal object as the previous API-built descriptor of this PTS
 					obj := scte35.CreateSegmentationDescriptor()
 					obj.SetTypeID(scte35.SegDescType(o.Type))
@@ -212,6 +224,9 @@ func checkC10(c CaseC10, x *hx.Ctx) (fail *hx.Failure) {
 				seen = append(seen, d)
 			}
 			closed, err := st.ProcessDescriptor(d.obj)
+			if len(closed) > 0 {
+				retained = append(retained, retainedList{got: closed, want: append([]scte35.SegmentationDescriptor{}, closed...), at: len(hist)})
+			}
 			after := snapshot()
 			if !d.abs.HasPTS {
 				if err == nil || len(closed) != 0 || !sameList(before, after) {
@@ -359,6 +374,13 @@ func checkC10(c CaseC10, x *hx.Ctx) (fail *hx.Failure) {
 		if f := checkOpen(); f != nil {
 			return f
 		}
+		for _, r := range retained {
+			for i := range r.want {
+				if i >= len(r.got) || r.got[i] != r.want[i] {
+					return hx.Failf("closed-list-changed", "the closed list returned by call %d changed after later calls (history %v)", r.at, hist)
+				}
+			}
+		}
 	}
 	x.NT(sawBreakaway && interesting)
 	x.LabelIf(sawBreakaway, "has-breakaway")
@@ -422,4 +444,23 @@ func TestC10Exhaustive(t *testing.T) {
 func FuzzC10(f *testing.F) {
 	c10Rule()
 	f.Fuzz(propC10.Fuzz())
+}
+
+// TestC10ManySamePTS: more than 20 distinct descriptors on one signal time, then an immediate repeat.
+func TestC10ManySamePTS(t *testing.T) {
+	c10Rule()
+	if !hx.FirstShard() {
+		t.Skip("runs on shard 0")
+	}
+	for _, n := range []int{12, 21, 22} {
+		var ops []OpC10
+		for i := 0; i < n; i++ {
+			ops = append(ops, OpC10{Kind: "process", Type: []byte{0x30, 0x10, 0x20, 0x40, 0x34}[i%5], Event: uint32(1 + i), Num: byte(i % 3), SamePTS: true, Decoded: i%2 == 0})
+		}
+		ops = append(ops, OpC10{Kind: "reprocess"}, OpC10{Kind: "open"})
+		if f := propC10.EvalFast(CaseC10{Ops: ops, MaxPerPTS: 30}, hx.HashInts(99, uint64(n))); f != nil {
+			t.Fatalf("VIOLATION-CANDIDATE property=C10 key=%s: %s", f.Key, f.Msg)
+		}
+	}
+	hx.Rec("C10").Subspace("12, 21 and 22 distinct descriptors on ONE signal time followed by an immediate repeat of the last")
 }
